@@ -13,7 +13,7 @@ ID = "C02"
 LEVEL = "exploration"
 RULE = (
     "Hypothesis draws runs over all objective families x boxes (biased narrow, every bound kind incl. lb==ub) x feasible starts on faces/vertices x "
-    "{callable, None, 2-point, 3-point, cs} x maxcor/maxls/maxiter 0..60/maxfun 1..400 (problems also in other units, with args / per-variable steps / line-search options), plus re-entrant objectives that run an inner minimisation with another box; every argument of fun/jac (stencil points included), every callback "
+    "{callable, None, 2-point, 3-point, cs} x maxcor/maxls/maxiter 0..60/maxfun 1..400 (problems also in other units, with args / per-variable steps / line-search options), a third of the starts handed over as float32 / float16 / int64 arrays (feasible in that dtype), plus re-entrant objectives that run an inner minimisation with another box; every argument of fun/jac (stencil points included), every callback "
     "iterate and the result are tested with exact comparisons. non-trivial = the run did >=1 iteration and some logged point has a component exactly on a finite bound; "
     "distinct = distinct run spec; a fifth of the problems are also translated far from the origin (x -> x+T, |T| = 1e2..1e6: bounds and iterates of large magnitude compared with the box)"
 )
@@ -28,11 +28,40 @@ def in_box(x, lb, ub):
     return bool(np.all(x >= lb) and np.all(x <= ub))
 
 
+def cast_feasible(x0, lb, ub, dtype):
+    """x0 in the requested dtype and still inside the box (a start is feasible by the premise of the property): components
+    that the cast pushes outside are moved to the neighbouring representable value inside; None if there is none."""
+    if dtype == "int64":
+        x = np.round(x0)
+        x = np.where(x < lb, np.ceil(lb), x)
+        x = np.where(x > ub, np.floor(ub), x)
+        if not np.all(np.isfinite(x)) or not (np.all(x >= lb) and np.all(x <= ub)) or np.any(np.abs(x) > 2**53):
+            return None
+        return x.astype(np.int64)
+    with np.errstate(over="ignore"):
+        x = x0.astype(dtype)
+    for _ in range(2):
+        xf = x.astype(np.float64)
+        x = np.where(xf < lb, np.nextafter(x, np.array(np.inf, dtype=dtype)), x)
+        x = np.where(xf > ub, np.nextafter(x, np.array(-np.inf, dtype=dtype)), x).astype(dtype)
+    xf = x.astype(np.float64)
+    if not np.all(np.isfinite(xf)) or not (np.all(xf >= lb) and np.all(xf <= ub)):
+        return None
+    return x
+
+
 def check(rspec, stats=None):
     prob = build(rspec["problem"])
     lb, ub = prob.lb, prob.ub
     fixed = lb == ub
-    tr = execute(rspec, prob=prob, callback="passive")
+    over = {}
+    if rspec.get("x0_dtype"):
+        xc = cast_feasible(np.clip(prob.x0, lb, ub), lb, ub, rspec["x0_dtype"])
+        if xc is not None:
+            over["x0"] = xc
+        elif stats is not None:
+            stats.bump("no-feasible-start-in-that-dtype(float64 used)")
+    tr = execute(rspec, prob=prob, callback="passive", **over)
     mode = rspec["jac"]
 
     def judge(x, what):
@@ -68,7 +97,7 @@ def check(rspec, stats=None):
         on = any(bool(np.any((p == lb) | (p == ub))) for p in pts)
         stats.case(rspec, nit >= 1 and on and bool(np.any(np.isfinite(lb) | np.isfinite(ub))),
                    [f"jac={mode}", f"nit={'0' if nit == 0 else '1-5' if nit <= 5 else '6+'}", f"onbound={on}",
-                    f"family={rspec['problem']['obj'].get('bench', rspec['problem']['obj']['family'])}"])
+                    f"family={rspec['problem']['obj'].get('bench', rspec['problem']['obj']['family'])}", f"x0_dtype={rspec.get('x0_dtype', 'float64')}"])
 
 
 def check_nested(spec, stats=None):
@@ -119,9 +148,15 @@ def nested_strategy(draw):
     return {"outer": o, "inner": i, "nest_every": draw(st.sampled_from([1, 2, 3, 5]))}
 
 
-def strategy():
-    return run_spec(families=ALL_FAMILIES, n_max=10, jac_modes=JAC_MODES + ("callable",), maxiter=(0, 60), maxfun=(1, 400), narrow=True, units=True, shift=True, extras=True,
-                    ftols=(0.0, 1e-12, 1e-5), gtols=(1e-8, 1e-6, 1e-5))
+@st.composite
+def strategy(draw):
+    r = draw(run_spec(families=ALL_FAMILIES, n_max=10, jac_modes=JAC_MODES + ("callable",), maxiter=(0, 60), maxfun=(1, 400), narrow=True, units=True, shift=True, extras=True,
+                      ftols=(0.0, 1e-12, 1e-5), gtols=(1e-8, 1e-6, 1e-5)))
+    # the start handed over in a narrower or integer dtype (the bounds are generic float64 numbers, hence not representable in it)
+    k = draw(st.sampled_from([None, None, None, None, "float32", "float16", "int64"]))
+    if k:
+        r["x0_dtype"] = k
+    return r
 
 
 def shard(ctx):
